@@ -1,6 +1,7 @@
 import Ufo2ftModel.Props.Flatten
 import Ufo2ftModel.Props.Reverse
 import Ufo2ftModel.Props.Propagate
+import Ufo2ftModel.Props.Transform
 import Ufo2ftModel.Spec.C15
 /-! Property C15: the theorems, assembled from the shared geometry proofs
     (Props/Geom, Props/Reverse, Props/Render, Props/Flatten). -/
@@ -78,31 +79,8 @@ theorem flatten_matrix (outer nested : Affine) (p : Q × Q) :
     outline maps every point by `m` and changes nothing else (order, types, direction). -/
 theorem render_compose_pos (gs : GlyphSet) (m : Affine) (hm : 0 < m.det) :
     ∀ (f : Nat) (t : Affine) (g : Glyph),
-      render f gs (m.compose t) g = (render f gs t g).map (Contour.map m) := by
-  intro f
-  induction f with
-  | zero => intro t g; simp [render]
-  | succ f ih =>
-    intro t g
-    rw [render_succ, render_succ, List.map_append]
-    congr 1
-    · simp only [drawContours, List.map_map, Bool.true_and]
-      apply List.map_congr_left
-      intro c _
-      have hd : (m.compose t).det < 0 ↔ t.det < 0 := by
-        rw [Affine.det_compose, Rat.mul_neg_iff_of_pos_left hm]
-      simp only [Function.comp]
-      by_cases h : t.det < 0
-      · simp only [hd.mpr h, h, decide_true, if_true]; rw [Contour.map_compose]
-      · have : ¬ (m.compose t).det < 0 := fun h' => h (hd.mp h')
-        simp only [this, h, decide_false, Bool.false_eq_true, if_false]; rw [Contour.map_compose]
-    · rw [List.map_flatMap]
-      apply flatMap_congr'
-      intro k _
-      simp only [renderOne]
-      cases gs.get? k.base with
-      | none => rfl
-      | some b => simp only [Affine.compose_assoc]; exact ih _ b
+      render f gs (m.compose t) g = (render f gs t g).map (Contour.map m) :=
+  _root_.Ufo2ft.render_compose_pos gs m hm
 
 /-- the compensation for an already-transformed base: the component `M ∘ (T ∘ M⁻¹)` of a base whose resolved outline
     has become `M(outline)` draws `M(T(outline))` — the matrix is applied once. -/
@@ -196,5 +174,122 @@ theorem C15_propagate_no_override (marks : List String) (incl : String → Bool)
   cases ho : orderedGlyphs gs with
   | error e => rw [ho] at h; cases h
   | ok order => rw [ho] at h; exact propagateLoop_ext marks incl order ⟨gs, [], []⟩ st h
+
+end Ufo2ft.C15
+
+namespace Ufo2ft.C15
+open Ufo2ft List
+
+/-! ### TransformationsFilter over the whole glyph set (proofs in Props/Transform.lean) -/
+
+theorem mem_names_get : ∀ (gs : GlyphSet) (n : String), n ∈ gs.names → ∃ g, gs.get? n = some g := by
+  intro gs
+  induction gs with
+  | nil => intro n h; cases h
+  | cons e gs ih =>
+    intro n h
+    obtain ⟨k, v⟩ := e
+    simp only [GlyphSet.get?, alookup]
+    by_cases hk : (k == n) = true
+    · exact ⟨v, by rw [if_pos hk]⟩
+    · rw [if_neg hk]
+      simp only [GlyphSet.names, List.map_cons, mem_cons] at h
+      rcases h with h | h
+      · exact absurd (by simpa using h.symm) hk
+      · exact ih n h
+
+theorem get_of_mem_nodup : ∀ (gs : GlyphSet), gs.names.Nodup → ∀ n g, (n, g) ∈ gs → gs.get? n = some g := by
+  intro gs
+  induction gs with
+  | nil => intro _ n g h; cases h
+  | cons e gs ih =>
+    intro hnd n g h
+    obtain ⟨k, v⟩ := e
+    simp only [GlyphSet.names, List.map_cons, nodup_cons] at hnd
+    simp only [GlyphSet.get?, alookup]
+    rcases mem_cons.mp h with h | h
+    · obtain ⟨e1, e2⟩ := Prod.mk.inj h
+      subst e1; subst e2; simp
+    · have hne : ¬ (k == n) = true := by
+        intro hk
+        have : k = n := by simpa using hk
+        subst this
+        exact hnd.1 (mem_map_of_mem (f := (·.1)) h)
+      rw [if_neg hne]
+      exact ih hnd.2 n g h
+
+theorem sameDrawing_refl (exact : Bool) (a : List Contour) : sameDrawing exact a a = true := by
+  unfold sameDrawing
+  cases exact
+  · simp only [Bool.false_eq_true, if_false]; exact List.isPerm_iff.mpr (Perm.refl _)
+  · simp only [if_true]; exact List.isPerm_iff.mpr (Perm.refl _)
+
+/-- **C15 (transformations)**: on every acyclic glyph set with distinct keys equal to the glyph names, for every matrix with
+    positive determinant and every convex include set, the declarative predicate `holdsTransform` holds of the filter's
+    output: each included non-empty glyph's resolved outline, anchors and advance are mapped by exactly the matrix (bases
+    and composites both included), every other glyph is unchanged, the key list is unchanged.
+    Without convexity this is false: `transform_nonconvex_counterexample`. -/
+theorem C15_transform (m : Affine) (p : String → Bool) (gs : GlyphSet) (rank : String → Nat) (st : FState)
+    (hr : Ranked gs rank) (hn : Named gs) (hnd : gs.names.Nodup) (hm : 0 < m.det) (hc : IncludeConvex gs p)
+    (h : runFilter (transformStep m p) p gs = .ok st) : holdsTransform m p gs st.gs = true := by
+  obtain ⟨hnames, hall⟩ := transform_convex m p gs rank hr hn hm hc st h
+  unfold holdsTransform
+  rw [Bool.and_eq_true]
+  refine ⟨?_, by rw [hnames]; simp⟩
+  unfold transformWrong
+  rw [List.isEmpty_iff, List.map_eq_nil_iff, List.filter_eq_nil_iff]
+  intro e he
+  obtain ⟨n, g'⟩ := e
+  have hn' : n ∈ gs.names := by rw [← hnames]; exact mem_map_of_mem (f := (·.1)) he
+  obtain ⟨g, hg⟩ := mem_names_get gs n hn'
+  obtain ⟨g'', hg'', ha, hb⟩ := hall n g hg
+  have hg' : st.gs.get? n = some g' := get_of_mem_nodup st.gs (by rw [hnames]; exact hnd) n g' he
+  rw [hg'] at hg''
+  have e := Option.some.inj hg''
+  subst e
+  simp only [hg]
+  by_cases hh : p n = true ∧ emptyG g = false
+  · have M := ha hh
+    have hcond : (p n && !(g.contours.isEmpty && g.comps.isEmpty && g.anchors.isEmpty)) = true := by
+      have h2 : (g.contours.isEmpty && g.comps.isEmpty && g.anchors.isEmpty) = false := hh.2
+      rw [hh.1, h2]; rfl
+    rw [if_pos hcond, M.outline, M.anchors, M.advance, sameDrawing_refl]
+    simp
+  · have e := hb hh
+    subst e
+    by_cases hp : p n = true
+    · have h2 : (g'.contours.isEmpty && g'.comps.isEmpty && g'.anchors.isEmpty) = true := by
+        cases h3 : emptyG g' with
+        | true => exact h3
+        | false => exact absurd ⟨hp, h3⟩ hh
+      simp [hp, h2]
+    · simp [hp]
+
+/-- **C15 (transformations, default include)**: with every glyph included no hypothesis on the include set is needed. -/
+theorem C15_transform_all (m : Affine) (gs : GlyphSet) (rank : String → Nat) (st : FState)
+    (hr : Ranked gs rank) (hn : Named gs) (hnd : gs.names.Nodup) (hm : 0 < m.det)
+    (h : runFilter (transformStep m (fun _ => true)) (fun _ => true) gs = .ok st) :
+    holdsTransform m (fun _ => true) gs st.gs = true :=
+  C15_transform m _ gs rank st hr hn hnd hm (includeConvex_all gs) h
+
+/-- non-vacuity: the hypotheses of `C15_transform` are met by A → B → C with include = {A, B} (a non-included base below
+    two included composites) and scale 2 -/
+example : ∃ st, runFilter (transformStep sc2 pAB) pAB gs3 = .ok st ∧ holdsTransform sc2 pAB gs3 st.gs = true :=
+  ⟨_, gs3_run_AB, C15_transform sc2 pAB gs3 rank3 _ gs3_ranked gs3_named (by decide) sc2_det gs3_convex_AB gs3_run_AB⟩
+
+/-- the recorded finding: with the non-convex include = {A, C} the predicate is FALSE of the filter's output (A is scaled
+    by 4, not 2) -/
+theorem C15_transform_nonconvex :
+    ∃ st, runFilter (transformStep sc2 pAC) pAC gs3 = .ok st ∧ holdsTransform sc2 pAC gs3 st.gs = false := by
+  refine ⟨_, gs3_run_AC, ?_⟩
+  simp [holdsTransform, transformWrong, sameDrawing, nonsingularFrom, renderGlyph, render, renderComps, gs3, gA, gB, gC, dot,
+    GlyphSet.get?, alookup, sc2, pAC, Affine.id, Affine.compose, Affine.apply, Affine.det, Contour.map, Pt.map,
+    reverseContour, retype, firstOnCurve, GlyphSet.names]
+  intro h1
+  exfalso
+  rw [if_pos (by constructor <;> grind), List.isPerm_iff] at h1
+  have h2 := List.perm_singleton.mp h1
+  simp only [List.cons.injEq, Pt.mk.injEq, and_true] at h2
+  grind
 
 end Ufo2ft.C15
